@@ -91,6 +91,7 @@ def handle (j : Json) : R Json := do
         | "config" => pure HOp.config
         | "hash" => pure (HOp.hsh (← optStr oj "h"))
         | "restart" => pure HOp.restart
+        | "stop" => pure HOp.stop
         | _ => throw s!"sessions: unknown op kind {k}"
       let idb? : Option Bytes := match hop with
         | .s (.setup idb _) => some idb
@@ -114,6 +115,8 @@ def handle (j : Json) : R Json := do
             ("sess", sessOf c), ("pr", Json.bool (pairingRemoved parse w.acc.ps ⟨w.ss c, body⟩))])
         | .config, .saved wrote | .hsh _, .saved wrote =>
           pure (Json.mkObj [("acc", jacc w'.acc), ("wrote", Json.bool wrote), ("doc", if wrote then jfile w'.acc else Json.null)])
+        | .stop, .saved _ =>
+          pure (Json.mkObj [("stopped", Json.bool true), ("acc", jacc w'.acc)])
         | .restart, .restarted ok =>
           pure (Json.mkObj [("restarted", Json.bool ok), ("acc", jacc w'.acc)])
         | _, _ => throw "sessions: unexpected answer shape"
